@@ -52,7 +52,7 @@ func (q *seqRun) runResub() {
 	for p := 0; p < s.Periods; p++ {
 		setting := fmt.Sprintf("in subscription period %d of one subscriber transport object (Subscribe/Unsubscribe %d time(s) before)", p+1, p)
 		delay := time.Duration(0)
-		if p == 0 {
+		if p == 0 || (s.Burst > 0 && p < s.Periods-1) {
 			delay = time.Duration(s.DelayUs) * time.Microsecond
 		}
 		user := s.User
@@ -141,6 +141,23 @@ func (q *seqRun) runResub() {
 		}
 		if !q.settleSub(x, 10+p, label, setting) {
 			return
+		}
+		if s.Burst > 0 && p < s.Periods-1 {
+			// a backlog inside the subscriber at Unsubscribe (slow handler): in
+			// flight for this period, and never anything a later period may get
+			for i := 0; i < s.Burst; i++ {
+				m, e := q.publishTo(x, "valid", 10+p)
+				if e != nil {
+					q.inconclusive("publish failed: " + e.Error())
+					return
+				}
+				m.Sub = "burst"
+				q.count("resubscribe_inflight_at_unsubscribe_published", 1)
+			}
+			if !q.waitTap() {
+				q.inconclusive("the raw tap subscriber did not see everything published")
+				return
+			}
 		}
 		done := make(chan error, 1)
 		go func() { done <- x.sub.Unsubscribe() }()
